@@ -554,4 +554,205 @@ theorem readAll_damaged (cfg : Cfg) (before after : List Item)
     readLines_append_good cfg before gb]
   have ha := readLines_map cfg after ga
   cases hr : readLine cfg l' <;> simp [readLines, hr, ha]
+/-! #### position 5 under amino's length-prefix check -/
+
+/-- how `binary.Uvarint` depends on the low seven bits already accumulated -/
+theorem uvarintAux_shift : ∀ (r : Bytes) (i x s : Nat) (v n : Nat), i ≤ 10 →
+    uvarintAux i x s r = some (v, n) →
+    x ≤ v ∧ (v - x) % 2 ^ s = 0 ∧ i + 1 ≤ n ∧ n ≤ 10 ∧ n ≤ i + r.length ∧
+    ∀ x', uvarintAux i x' s r = some (v - x + x', n) := by
+  intro r
+  induction r with
+  | nil => intro i x s v n _ h; simp [uvarintAux] at h
+  | cons b rest ih =>
+    intro i x s v n hi10 h
+    unfold uvarintAux at h
+    split at h
+    · cases h
+    · rename_i hi
+      split at h
+      · rename_i hb
+        split at h
+        · cases h
+        · rename_i h9
+          simp only [Option.some.injEq, Prod.mk.injEq] at h
+          obtain ⟨rfl, rfl⟩ := h
+          have hi' : i ≠ 10 := by simpa using hi
+          refine ⟨by omega, by simp [Nat.add_sub_cancel_left, Nat.mul_mod_left], by omega, ?_, by simp, ?_⟩
+          · omega
+          · intro x'
+            unfold uvarintAux
+            simp only [hi, Bool.false_eq_true, if_false, hb, if_true, h9]
+            simp; omega
+      · rename_i hb
+        have hi' : i ≠ 10 := by simpa using hi
+        obtain ⟨h1, h2, h3, h4, h6, h5⟩ := ih (i + 1) _ (s + 7) v n (by omega) h
+        refine ⟨by omega, ?_, by omega, h4, by simp; omega, ?_⟩
+        · have d1 : 2 ^ s ∣ v - (x + b.toNat % 128 * 2 ^ s) :=
+            Nat.dvd_trans (Nat.pow_dvd_pow 2 (by omega)) (Nat.dvd_of_mod_eq_zero h2)
+          have d2 : 2 ^ s ∣ b.toNat % 128 * 2 ^ s := Nat.dvd_mul_left _ _
+          have e : v - x = (v - (x + b.toNat % 128 * 2 ^ s)) + b.toNat % 128 * 2 ^ s := by omega
+          rw [e]
+          exact Nat.mod_eq_zero_of_dvd (Nat.dvd_add d1 d2)
+        · intro x'
+          unfold uvarintAux
+          simp only [hi, Bool.false_eq_true, if_false, hb]
+          have := h5 (x' + b.toNat % 128 * 2 ^ s)
+          rw [this]
+          congr 2
+          omega
+
+theorem uvarint_cons (b : UInt8) (r : Bytes) :
+    uvarint (b :: r) = if b.toNat < 128 then some (b.toNat, 1) else uvarintAux 1 (b.toNat % 128) 7 r := by
+  have hb : (b < 128) ↔ b.toNat < 128 := by
+    rw [UInt8.lt_iff_toNat_lt]; rfl
+  unfold uvarint
+  rw [uvarintAux]
+  by_cases h : b.toNat < 128
+  · have h' : b < 128 := hb.mpr h
+    simp [h', h]
+  · have h' : ¬ b < 128 := fun e => h (hb.mp e)
+    simp [h', h]
+
+theorem sizedOK_cons (b : UInt8) (r : Bytes) :
+    sizedOK (b :: r) = true ↔
+      (b.toNat < 128 ∧ b.toNat = r.length) ∨
+      (128 ≤ b.toNat ∧ ∃ v n, uvarintAux 1 (b.toNat % 128) 7 r = some (v, n) ∧ v = r.length + 1 - n) := by
+  unfold sizedOK
+  rw [uvarint_cons]
+  by_cases h : b.toNat < 128
+  · simp [h]; omega
+  · simp only [h, if_false]
+    constructor
+    · intro hs
+      right
+      refine ⟨by omega, ?_⟩
+      split at hs
+      · rename_i v n heq
+        exact ⟨v, n, heq, by simpa using hs⟩
+      · cases hs
+    · intro hs
+      rcases hs with ⟨h1, _⟩ | ⟨_, v, n, heq, hv⟩
+      · exact h1.elim
+      · rw [heq]; simp [hv]
+
+/-- Two sized payloads with the same tail whose first bytes agree in their low four
+bits have the same first byte. -/
+theorem sized_first_byte (b b' : UInt8) (r : Bytes) (h16 : b.toNat % 16 = b'.toNat % 16)
+    (h1 : sizedOK (b :: r) = true) (h2 : sizedOK (b' :: r) = true) : b = b' := by
+  apply UInt8.toNat_inj.mp
+  have hb := b.toNat_lt
+  have hb' := b'.toNat_lt
+  rcases (sizedOK_cons b r).mp h1 with ⟨l1, e1⟩ | ⟨g1, v, n, u1, ev⟩
+  · rcases (sizedOK_cons b' r).mp h2 with ⟨l2, e2⟩ | ⟨g2, v', n', u2, ev'⟩
+    · omega
+    · obtain ⟨a1, a2, a3, a4, a6, _⟩ := uvarintAux_shift r 1 _ 7 v' n' (by omega) u2
+      have : (v' - b'.toNat % 128) % 128 = 0 := by simpa using a2
+      omega
+  · rcases (sizedOK_cons b' r).mp h2 with ⟨l2, e2⟩ | ⟨g2, v', n', u2, ev'⟩
+    · obtain ⟨a1, a2, a3, a4, a6, _⟩ := uvarintAux_shift r 1 _ 7 v n (by omega) u1
+      have : (v - b.toNat % 128) % 128 = 0 := by simpa using a2
+      omega
+    · obtain ⟨a1, a2, a3, a4, a6, a5⟩ := uvarintAux_shift r 1 _ 7 v n (by omega) u1
+      have := a5 (b'.toNat % 128)
+      rw [u2] at this
+      simp only [Option.some.injEq, Prod.mk.injEq] at this
+      omega
+
+/-- position 5 of a line: the one character straddling the stored CRC and the payload -/
+theorem decodeGroups_set5 (k0 k1 k2 k3 b : UInt8) (r : Bytes) (w : Nat) (hw : w < 64) :
+    Base64.decodeGroups ((Base64.encode (k0 :: k1 :: k2 :: k3 :: b :: r)).set 5 (Base64.encChar w)) =
+      some (k0 :: k1 :: k2 :: UInt8.ofNat (k3.toNat / 4 * 4 + w / 16) ::
+            UInt8.ofNat (w % 16 * 16 + b.toNat % 16) :: r) := by
+  have h0 := k0.toNat_lt; have h1 := k1.toNat_lt; have h2 := k2.toNat_lt; have h3 := k3.toNat_lt
+  have hb := b.toNat_lt
+  have d0 := Base64.decChar_encChar (show k0.toNat / 4 < 64 by omega)
+  have d1 := Base64.decChar_encChar (show k0.toNat % 4 * 16 + k1.toNat / 16 < 64 by omega)
+  have d2 := Base64.decChar_encChar (show k1.toNat % 16 * 4 + k2.toNat / 64 < 64 by omega)
+  have d3 := Base64.decChar_encChar (show k2.toNat % 64 < 64 by omega)
+  have d4 := Base64.decChar_encChar (show k3.toNat / 4 < 64 by omega)
+  have dw := Base64.decChar_encChar hw
+  have ea : k0.toNat / 4 * 4 + (k0.toNat % 4 * 16 + k1.toNat / 16) / 16 = k0.toNat := by omega
+  have eb : (k0.toNat % 4 * 16 + k1.toNat / 16) % 16 * 16 + (k1.toNat % 16 * 4 + k2.toNat / 64) / 4 = k1.toNat := by omega
+  have ec : (k1.toNat % 16 * 4 + k2.toNat / 64) % 4 * 64 + k2.toNat % 64 = k2.toNat := by omega
+  match r with
+  | [] =>
+    have d6 := Base64.decChar_encChar (show b.toNat % 16 * 4 < 64 by omega)
+    have e6 : w % 16 * 16 + b.toNat % 16 * 4 / 4 = w % 16 * 16 + b.toNat % 16 := by omega
+    simp only [Base64.encode, List.set_cons_succ, List.set_cons_zero, Base64.decodeGroups, d0, d1, d2, d3, d4, dw, d6,
+      ea, eb, ec, e6, Base64.ofNat_toNat]
+  | c :: r' =>
+    have hc := c.toNat_lt
+    have d6 := Base64.decChar_encChar (show b.toNat % 16 * 4 + c.toNat / 64 < 64 by omega)
+    have d7 := Base64.decChar_encChar (show c.toNat % 64 < 64 by omega)
+    have e6 : w % 16 * 16 + (b.toNat % 16 * 4 + c.toNat / 64) / 4 = w % 16 * 16 + b.toNat % 16 := by omega
+    have e7 : (b.toNat % 16 * 4 + c.toNat / 64) % 4 * 64 + c.toNat % 64 = c.toNat := by omega
+    simp only [Base64.encode, List.set_cons_succ, List.set_cons_zero, Base64.decodeGroups, d0, d1, d2, d3, d4, dw, d6, d7,
+      Base64.decodeGroups_encode, ea, eb, ec, e6, e7, Base64.ofNat_toNat]
+
+/-- Position 5, under the (true) fact that amino's `UnmarshalSized` checks the length
+prefix of the payload: the damaged first payload byte keeps its low four bits, so a
+payload that still passes the length-prefix check is the original one. -/
+theorem readLine_set5_sized (cfg : Cfg) (hsz : ∀ q, cfg.bodyOK q = true → sizedOK q = true)
+    (p : Bytes) (g : GoodPayload cfg p) (w : Nat) (hw : w < 64) :
+    readLine cfg ((msgText p).set 5 (Base64.encChar w)) = .corrupt ∨
+    readLine cfg ((msgText p).set 5 (Base64.encChar w)) = .msg p := by
+  match p, g with
+  | b :: r, g =>
+    have halpha : ∀ c ∈ (msgText (b :: r)).set 5 (Base64.encChar w), Base64.IsAlpha c := by
+      intro c hc
+      rcases List.mem_or_eq_of_mem_set hc with h | rfl
+      · exact msgText_alpha _ c h
+      · exact ⟨w, hw, rfl⟩
+    have hfil : ((msgText (b :: r)).set 5 (Base64.encChar w)).filter (fun c => !Base64.isSkipped c)
+        = (msgText (b :: r)).set 5 (Base64.encChar w) := by
+      apply List.filter_eq_self.mpr
+      intro c hc
+      obtain ⟨n, hn, rfl⟩ := halpha c hc
+      simp [Base64.isSkipped_encChar hn]
+    have hhead : ((msgText (b :: r)).set 5 (Base64.encChar w)).head? ≠ some 35 := by
+      intro e
+      obtain ⟨n, hn, e2⟩ := halpha 35 (List.mem_of_mem_head? e)
+      exact Base64.encChar_ne_hash hn e2.symm
+    have hdecode := decodeGroups_set5 (UInt8.ofNat ((Crc32c.crc32c (b :: r)).toNat / 16777216))
+      (UInt8.ofNat ((Crc32c.crc32c (b :: r)).toNat / 65536 % 256))
+      (UInt8.ofNat ((Crc32c.crc32c (b :: r)).toNat / 256 % 256))
+      (UInt8.ofNat ((Crc32c.crc32c (b :: r)).toNat % 256)) b r w hw
+    have hdec1 : Base64.decode ((msgText (b :: r)).set 5 (Base64.encChar w))
+        = Base64.decodeGroups ((msgText (b :: r)).set 5 (Base64.encChar w)) := by
+      unfold Base64.decode; rw [hfil]
+    have hdec2 := hdec1.trans hdecode
+    rw [readLine_of_decode cfg _ _ _ _ _ _ hhead hdec2]
+    split
+    · exact Or.inl rfl
+    · split
+      · exact Or.inl rfl
+      · split
+        · exact Or.inl rfl
+        · split
+          · exact Or.inl rfl
+          · rename_i hbody
+            right
+            have hb1 : cfg.bodyOK (UInt8.ofNat (w % 16 * 16 + b.toNat % 16) :: r) = true := by simpa using hbody
+            have hlt : w % 16 * 16 + b.toNat % 16 < 256 := by omega
+            have h16 : (UInt8.ofNat (w % 16 * 16 + b.toNat % 16)).toNat % 16 = b.toNat % 16 := by
+              rw [Base64.toNat_ofNat_lt hlt]; omega
+            have := sized_first_byte _ b r h16 (hsz _ hb1) (hsz _ g.body)
+            rw [this]
+
+
+/-- every single-byte corruption except '#' in first position and CR, given the length-prefix check -/
+theorem readLine_set_sized (cfg : Cfg) (hsz : ∀ q, cfg.bodyOK q = true → sizedOK q = true)
+    (p : Bytes) (g : GoodPayload cfg p) (i : Nat) (v : UInt8)
+    (hi : i < (msgText p).length) (h10 : v ≠ 10) (h13 : v ≠ 13) (hh : ¬ (i = 0 ∧ v = 35)) :
+    readLine cfg ((msgText p).set i v) = .corrupt ∨ readLine cfg ((msgText p).set i v) = .msg p := by
+  cases hd : Base64.decChar v with
+  | none => exact readLine_set_guarded cfg p g i v hi h10 h13 hh (Or.inl hd)
+  | some w =>
+    by_cases h5 : i = 5
+    · subst h5
+      rw [← Base64.encChar_of_decChar hd]
+      exact readLine_set5_sized cfg hsz p g w (Base64.decChar_lt hd)
+    · exact readLine_set_guarded cfg p g i v hi h10 h13 hh (Or.inr h5)
+
 end GnoVerif.C38
